@@ -622,7 +622,7 @@ func converge(r *core.Run, reconfigure bool) {
 	switch src.Intn(4) {
 	case 1:
 		for _, t := range e.w.Tasks() {
-			if strings.HasPrefix(t.Name, "w.watch") {
+			if strings.Contains(t.Name, "#") { // a goroutine started by the library (simrt.Go names them callee#n)
 				t.SetWeight(8)
 				r.Knob("starved", "watcher")
 			}
